@@ -57,7 +57,10 @@ def isDecimal (s : List Nat) : Bool := s.all (fun c => 48 ≤ c && c ≤ 57)
 /-- `trim_end_matches('0')`. -/
 def trimEnd0 (s : List Nat) : List Nat := (s.reverse.dropWhile (· == 48)).reverse
 
-def parse (s : List Nat) : Except PErr Nat :=
+/-- `AttoTokens::from_str`. `lenUntrimmed` = the fraction AS WRITTEN (trailing zeros included) is limited to
+`powConv` digits before `trim_end_matches('0')` (the guard regenerated as `Gen.Amount.fracLenCheckedUntrimmed`);
+without it only the trimmed fraction is measured, so `"1.0000000000000000000"` (19 fractional digits) parses. -/
+def parseWith (lenUntrimmed : Bool) (s : List Nat) : Except PErr Nat :=
   let (u, f) := splitDot s
   if !(isDecimal u && !u.isEmpty) then .error .units else
   match uintFromStr u with
@@ -67,6 +70,7 @@ def parse (s : List Nat) : Except PErr Nat :=
     let conv := (units * rawConv) % U256
     let fs := f.getD []
     if !isDecimal fs then .error .remainder else
+    if lenUntrimmed && powConv < fs.length then .error .lossOfPrecision else
     let r := trimEnd0 fs
     if r.isEmpty then .ok conv else
     match uintFromStr r with
@@ -76,6 +80,9 @@ def parse (s : List Nat) : Except PErr Nat :=
       let rem := (pr * 10 ^ (powConv - r.length)) % U256
       if finalAddChecked && conv + rem ≥ U256 then .error .excessive
       else .ok ((conv + rem) % U256)
+
+/-- The code as it stands: the guard is whatever the translator read from `from_str`. -/
+def parse (s : List Nat) : Except PErr Nat := parseWith fracLenCheckedUntrimmed s
 
 def toChars (ds : List Nat) : List Nat := ds.map (· + 48)
 
